@@ -62,6 +62,7 @@ type hist struct {
 	aborted bool // stopped early after many violations
 	nbad    int  // every report
 	sigN    map[string]int
+	rootTag string // "" = the discovery blobRoot; "/bs", "/index": another root of the server (roots.go)
 }
 
 type logBuf struct {
@@ -108,10 +109,17 @@ func (h *hist) bad(sig, format string, args ...any) {
 	}
 	// a signature weighs at most 3 towards the abort threshold, so that a defect that
 	// shows on every request of one class (e.g. a listed known finding) does not end the history
+	if h.rootTag != "" {
+		// another blob root: its own signature family; the index root varies with the index type
+		sig = rootSigPrefix(h.rootTag) + sig
+	}
 	if h.sigN[sig]++; h.sigN[sig] <= 3 {
 		h.nviol++
 	}
-	if !plainSig[sig] {
+	switch {
+	case h.rootTag == "/index":
+		sig += "/" + h.cfg.Index
+	case h.rootTag != "" || !plainSig[sig]:
 		sig += "/" + h.cfg.Storage
 	}
 	ops := h.ops
@@ -143,6 +151,9 @@ func (h *hist) flushNotes() {
 
 // begin records the request about to be made (endpoint, client kind, parameter class).
 func (h *hist) begin(endpoint, kind, class, detail string) {
+	if h.rootTag != "" {
+		class += "@" + h.rootTag
+	}
 	h.curReq = fmt.Sprintf("%s %s %s %s", endpoint, kind, class, detail)
 	h.ops = append(h.ops, h.curReq)
 	h.classes[endpoint+"."+kind+"."+class]++
@@ -284,9 +295,13 @@ func childMain() {
 	}
 	hn, _ := strconv.Atoi(os.Getenv("C18_HIST"))
 	boundary := os.Getenv("C18_KIND") == "boundary"
+	bulk := os.Getenv("C18_KIND") == "bulk"
 	label := fmt.Sprintf("history/%s/%d", cfg, hn)
 	if boundary {
 		label = fmt.Sprintf("boundary/%s", cfg)
+	}
+	if bulk {
+		label = fmt.Sprintf("bulk/%s", cfg)
 	}
 	nreq, _ := strconv.Atoi(os.Getenv("C18_NREQ"))
 	dir := os.Getenv("C18_DIR")
@@ -332,10 +347,14 @@ func childMain() {
 		// the store of a memory configuration holds ~150 MiB of boundary blobs: keep the heap near its live size
 		debug.SetGCPercent(25)
 		h.runBoundary()
+		h.audit()
+	} else if bulk {
+		h.runBulk()
+		h.auditBulk()
 	} else {
 		h.run(nreq)
+		h.audit()
 	}
-	h.audit()
 	h.observeDisk()
 
 	h.flushNotes()
